@@ -13,9 +13,11 @@ import (
 	"os"
 	"path/filepath"
 	"reflect"
+	"regexp"
 	"sort"
 	"strings"
 	"time"
+	"verif/lib/tcprelay"
 
 	"github.com/database64128/shadowsocks-go/api/ssm"
 	"github.com/database64128/shadowsocks-go/cred"
@@ -379,8 +381,11 @@ func apiSearch(c *harness.Check, depth int) {
 	c.Sample(map[string]any{"api_history": names([]int{0, 4, 6}), "meaning": "collect for a; GET stats; GET users/a — every answer compared with the reference model"})
 }
 
+var digits = regexp.MustCompile(`[0-9]+`)
+
 func main() {
 	harness.Register("collector", collectorScenario)
+	registerRecording()
 	harness.WorkerMain()
 	c := harness.Start("C14")
 	if c.Replay != "" {
@@ -410,8 +415,18 @@ func main() {
 		}
 		os.Exit(0)
 	}
-	c.Rule = "schedule part: one case = one complete interleaving of collector threads and a snapshot thread at atomic/lock granularity (map iteration order included); distinct = distinct (snapshots, final) record per scenario. API part: one case = one request history over the alphabet; all distinct."
-	c.Assumptions = []string{"sequential consistency", "deviation-bounded (preemptions + map-order rotations); bound reported per scenario", "API histories exhaustive to the stated depth over the stated alphabet"}
+	c.Rule = "schedule part: one case = one complete interleaving of collector threads and a snapshot thread at atomic/lock granularity (map iteration order included); distinct = distinct (snapshots, final) record per scenario. API part: one case = one request history over the alphabet; all distinct. Recording parts: one case = one interleaving (delay-bounded) of a real TCP relay session (tcprecord, the family of lib/tcprelay) or of two UDP client sessions through a real UDP relay (udprecord: 4 server protocols x 2 batch modes); the collector's figures are compared with the bytes the harness saw delivered."
+	c.Assumptions = []string{"sequential consistency", "deviation-bounded (preemptions + map-order rotations); bound reported per scenario", "API histories exhaustive to the stated depth over the stated alphabet", "recording parts: in-memory TCP connections / real loopback UDP sockets with scheduler-mediated readiness; a queued packet returned to its sync.Pool is scribbled over at once (a legal behaviour of a concurrent Get), so reads after Put are visible; transparent relay not run"}
+	c.SigOf = func(name, param, msg string) string {
+		if name == "udprecord" || name == "tcprecord" {
+			msg = digits.ReplaceAllString(msg, "N") // figures vary with the schedule; the failing shape does not
+		}
+		if name == "tcprecord" {
+			sp := tcprelay.Parse(param) // as C13: front protocol + wait/native flags + dial result
+			param = fmt.Sprintf("server=%s,wait=%v,native=%v,dial=%s", sp.Server, sp.Wait, sp.Native, sp.Dial)
+		}
+		return name + "(" + param + "): " + msg
+	}
 	var params []string
 	for k := range cscens {
 		params = append(params, k)
@@ -422,6 +437,7 @@ func main() {
 		c.Sample(map[string]any{"scenario": r.Param, "threads": cscens[r.Param].threads, "snapshots": cscens[r.Param].snaps, "executions": r.Stats.Execs, "distinct_observations": len(r.Stats.Observations)})
 		c.AddExploration("collector", r.Param, r.Stats, harness.Confirm(collectorScenario(r.Param)))
 	}
+	runRecordingParts(c)
 	apiSearch(c, harness.Pick(c, 3, 4))
 	c.Finish()
 }
